@@ -119,13 +119,13 @@ def run_config(chk, label, flags, items, scratch, thread=False, chunk=3000):
                     libc = rest.split("(")[0]
                     if exempt(cls, rest):
                         continue
-                    sig = "%s:%s:%s%s" % (cls, fname, libc, {0: "", 1: ":thread", 2: ":detached-thread"}[int(thread)])
+                    sig = "%s:%s:%s%s" % (cls, fname, libc, {0: "", 1: ":thread", 2: ":detached-thread", 3: ":detached-thread-a"}[int(thread)])
                     argtext = it
                     replay = ("(sandbox %s)\n(pp (protect (%s ...)))  # item %s\n"
                               "# the call above reached libc %s while capability %s was disabled\n" % (
                                   " ".join(":" + f for f in flags), fname, argtext, rest, cls))
                     if chk.violation(sig, "config (%s)%s: %s reached %s (class %s)" % (
-                            " ".join(flags), {0: "", 1: " in a new thread", 2: " in a detached (:n) thread"}[int(thread)], argtext, rest, cls), replay):
+                            " ".join(flags), {0: "", 1: " in a new thread", 2: " in a detached (:n) thread", 3: " in a detached thread started with :na"}[int(thread)], argtext, rest, cls), replay):
                         nviol += 1
                 chk.outcome(("viol", text[:60]))
             else:
@@ -133,7 +133,7 @@ def run_config(chk, label, flags, items, scratch, thread=False, chunk=3000):
                 chk.outcome((label, text), nontrivial=False)
                 fname = it.split('"')[1]
                 if not thread and text == "ret" and fname in FFI_UNSAFE and any(f in flags for f in ("ffi-use", "ffi", "all")) and it in ffi_ok:
-                    chk.violation("ffi-use:%s:returned%s" % (fname, {0: "", 1: ":thread", 2: ":detached-thread"}[int(thread)]),
+                    chk.violation("ffi-use:%s:returned%s" % (fname, {0: "", 1: ":thread", 2: ":detached-thread", 3: ":detached-thread-a"}[int(thread)]),
                                   "config (%s): %s returned a value although :ffi-use is disabled (it returns a value with "
                                   "nothing disabled, so the arguments are well formed)" % (" ".join(flags), it),
                                   "(sandbox %s)\n(pp (protect (%s ...)))  # item %s\n" % (" ".join(":" + f for f in flags), fname, it))
@@ -295,6 +295,8 @@ def main():
             for cfg in [["all"], ["fs"], ["net"], ["subprocess"], ["env"]]:
                 run_config(chk, "thread:" + "+".join(cfg), cfg, thr_items, scratch, thread=1, chunk=500)
                 run_config(chk, "detached-thread:" + "+".join(cfg), cfg, thr_items, scratch, thread=2, chunk=500)
+            for cfg in [["all"], ["fs"], ["env"]]:
+                run_config(chk, "detached-thread-a:" + "+".join(cfg), cfg, thr_items, scratch, thread=3, chunk=500)
         else:
             for cfg in single + groups:
                 run_config(chk, "+".join(cfg), cfg, items, scratch)
@@ -311,6 +313,7 @@ def main():
                     break
                 run_config(chk, "thread:" + "+".join(cfg), cfg, thr_items, scratch, thread=1, chunk=500)
                 run_config(chk, "detached-thread:" + "+".join(cfg), cfg, thr_items, scratch, thread=2, chunk=500)
+                run_config(chk, "detached-thread-a:" + "+".join(cfg), cfg, thr_items, scratch, thread=3, chunk=500)
         monotonic(chk)
         chk.add(states=len(keep))
         chk.cov["bound_completed"] = "argument tuples of length <= 2 over %d shapes" % len(SHAPES)
